@@ -166,6 +166,52 @@ def _eff_cases(tier, inst):
         yield c
 
 
+# ---------------------------------------------------------------- the other direction: eff -> NTU -> eff on a fixed effectiveness grid
+EFFS = [0.05, 0.1, 0.2, 0.3, 0.4, 0.5, 0.6, 0.7, 0.8, 0.9, 0.95]
+
+
+def grid_cases(tier, inst):
+    _, cs = grids(tier)
+    for form in ("member", "text"):
+        for p in (None, 1, 2, 3, 4):
+            for c in cs:
+                for order in (0, 1):
+                    yield {"form": form, "passes": p, "c": c, "order": order}
+
+
+def grid_run(case, res: Result):
+    """One worker walks ALL arrangements for the same (c, effectiveness grid), in both orders, so that anything remembered
+    between calls (a cache keyed without the arrangement, say) is exposed: the same effectiveness values are requested for
+    every arrangement."""
+    from OpenPinch.utils.heat_exchanger import HX_Eff, HX_NTU
+
+    form, p, c = case["form"], case["passes"], case["c"]
+    arrs = ARR if case["order"] == 0 else list(reversed(ARR))
+    nontriv = False
+    outcome = []
+    for a in arrs:
+        lab = label(a, form)
+        for e in EFFS:
+            try:
+                N = HX_NTU(lab, e, c, p)
+            except Exception as exc:
+                res.stats["ntu_raises_on_grid:" + a] += 1     # an effectiveness the arrangement cannot reach
+                continue
+            if not (isinstance(N, (int, float)) and math.isfinite(N)) or N <= 0 or N > 60:
+                continue                                       # not reachable by this arrangement (or beyond the NTU range of the property)
+            try:
+                e_back = HX_Eff(lab, N, c, p)
+            except Exception:
+                e_back = float("nan")
+            outcome.append(round(N, 7))
+            nontriv = True
+            if not abs(e_back - e) <= 3e-5:
+                sig = f"grid_round_trip:{a}:{form}"
+                res.violate("effectiveness_round_trip_on_grid", case, {"arrangement": a, "eff": e, "ntu": N, "eff_back": e_back, "c": c, "passes": p,
+                                                                       "arrangements_before": arrs[:arrs.index(a)]}, sig)
+    res.add_case(case, nontriv, outcome=outcome, transitions=len(arrs) * len(EFFS))
+
+
 # ---------------------------------------------------------------- LMTD
 DTS = [0.5, 1, 2, 5, 10, 10 + 1e-7, 10 + 1e-5, 10 + 1e-3, 50, 1e-3, 1e3]
 BAD = [0.0, -1.0, -1e-9, 4e-7]
@@ -221,6 +267,13 @@ SUBCHECKS = {
         rule="case = (arrangement, label form, passes, c) swept over the whole NTU lattice (adjacent-NTU monotonicity); non-trivial = at least one invertible point 0<eff<1",
         cases=_eff_cases, run=eff_run,
         bound=lambda t: "8 arrangements x 2 forms x 5 pass settings x 5 c x 8 NTU" if t == "quick" else "8 x 2 x 5 x 17 c x 29 NTU",
+    ),
+    "effgrid": SubCheck(
+        name="effgrid",
+        describe="HX_NTU then HX_Eff on a fixed effectiveness grid, all arrangements walked by ONE worker for each (label form, passes, c), in both orders",
+        rule="case = (form, passes, c, order); non-trivial = at least one reachable effectiveness; transitions = arrangements x grid",
+        cases=grid_cases, run=grid_run,
+        bound=lambda t: "2 forms x 5 pass settings x 5 c x 2 orders x 8 arrangements x 11 effectiveness values" if t == "quick" else "... x 17 c ...",
     ),
     "lmtd": SubCheck(
         name="lmtd",
